@@ -235,6 +235,8 @@ class SCTPParser(HeaderParser):
                 chunk_fields: List[FieldDescriptor] = self._parse_chunk_shutdown_complete(chunk_value)
             else:    
                 chunk_fields: List[FieldDescriptor] = [FieldDescriptor(id=SCTPFields.CHUNK_VALUE, position=0, value=chunk_value)]
+            if sum(field.value.length for field in chunk_fields) != chunk_value.length:
+                raise ParserError(buffer=buffer, message='chunk value longer than the layout of its chunk type')
             fields.extend(chunk_fields)
             
         chunk_padding_length: int = (32 - chunk_length_value%32)%32
